@@ -1,9 +1,9 @@
-use std::{fmt::Debug, io::Write, str::from_utf8};
+use std::{borrow::Cow, fmt::Debug, io::Write, str::from_utf8};
 
 use async_trait::async_trait;
 use quick_xml::{
     events::{BytesStart, Event},
-    name::{Namespace, ResolveResult},
+    name::{Namespace, QName, ResolveResult},
     NsReader, Writer,
 };
 
@@ -23,6 +23,42 @@ pub mod rpc;
 pub(crate) mod xmlns;
 
 pub(crate) const MARKER: &[u8] = b"]]>]]>";
+
+/// Read the raw text between the start tag `name`, which has just been read, and its end tag.
+///
+/// `NsReader::read_text` leaves this to the inner `Reader`, which consumes the end tag without
+/// closing the namespace scope that was opened for the start tag: every call leaves the resolver
+/// one level too deep, and namespace declarations of enclosing elements then stay in force for
+/// the elements that follow them. The events are therefore read through the `NsReader` itself.
+///
+/// # Errors
+///
+/// Fails if the document ends, or is not well-formed, before the end tag.
+pub fn read_text<'i>(
+    reader: &mut NsReader<&'i [u8]>,
+    name: QName<'_>,
+) -> Result<Cow<'i, str>, quick_xml::Error> {
+    let input: &'i [u8] = reader.get_ref();
+    let start = reader.buffer_position();
+    let mut depth = 0_usize;
+    loop {
+        let end = reader.buffer_position();
+        match reader.read_event()? {
+            Event::Start(tag) if tag.name() == name => depth += 1,
+            Event::End(tag) if tag.name() == name => {
+                if depth == 0 {
+                    return reader.decoder().decode(&input[..end - start]);
+                }
+                depth -= 1;
+            }
+            Event::Eof => {
+                let name = String::from_utf8_lossy(name.as_ref()).into_owned();
+                return Err(quick_xml::Error::UnexpectedEof(format!("</{name}>")));
+            }
+            _ => {}
+        }
+    }
+}
 
 pub trait ReadXml: Sized {
     fn read_xml(reader: &mut NsReader<&[u8]>, start: &BytesStart<'_>) -> Result<Self, ReadError>;
